@@ -62,6 +62,13 @@ type mGor struct {
 	blocked bool // was released and did not come back within the watchdog
 }
 
+// mFault: the n-th execution (from 0) of point, counted from the moment the fault became armed
+// (the start of the run for the first one, the firing of its predecessor for the others).
+type mFault struct {
+	point string
+	n     int
+}
+
 type mCtl struct {
 	mu         sync.Mutex
 	notify     chan struct{}
@@ -70,10 +77,9 @@ type mCtl struct {
 	writers    []*mGor // actor k -> writers[k-1]
 	unassigned []*mGor // arrived at write.recv, not yet given an actor number
 	free       bool
-	faultPoint string
-	faultN     int
-	fired      bool
-	counts     map[string]int
+	faults     []mFault // armed one after the other: only faults[armed] can fire
+	armed      int
+	counts     map[string]int // executions of each point since the armed fault became armed
 	watchdog   time.Duration
 	noSuch     int // lowest actor number that did not arrive within the watchdog (0 = none)
 }
@@ -102,10 +108,12 @@ func curGID() int64 {
 
 func newMCtl(fault string) *mCtl {
 	c := &mCtl{notify: make(chan struct{}, 1024), gs: map[int64]*mGor{}, counts: map[string]int{},
-		watchdog: 150 * time.Millisecond, faultN: -1}
+		watchdog: 150 * time.Millisecond}
 	if fault != "-" && fault != "" {
-		i := strings.IndexByte(fault, ':')
-		c.faultPoint, c.faultN = fault[:i], hx.Atoi(fault[i+1:])
+		for _, f := range strings.Split(fault, "+") {
+			i := strings.IndexByte(f, ':')
+			c.faults = append(c.faults, mFault{f[:i], hx.Atoi(f[i+1:])})
+		}
 	}
 	return c
 }
@@ -134,9 +142,11 @@ func (c *mCtl) hook(point string) error {
 		c.mu.Lock()
 		k := c.counts[fp]
 		c.counts[fp]++
-		hit := fp == c.faultPoint && k == c.faultN
+		hit := c.armed < len(c.faults) && fp == c.faults[c.armed].point && k == c.faults[c.armed].n
 		if hit {
-			c.fired = true
+			// the next fault of the list becomes armed; its count starts now
+			c.armed++
+			c.counts = map[string]int{}
 		}
 		c.mu.Unlock()
 		if hit {
@@ -304,6 +314,8 @@ type mWork struct {
 	ops              []string
 	sched            []int
 	fault            string
+	reuse            bool // opts "r": the concurrent caller, too, recovers with Clear after an error
+	abandon          bool // ops end with "u": the caller's last call is CleanUp
 }
 
 func parseMWork(f []string) mWork {
@@ -311,7 +323,13 @@ func parseMWork(f []string) mWork {
 	if f[5] != "-" {
 		w.ops = strings.Split(f[5], ",")
 	}
+	if n := len(w.ops); n > 0 && w.ops[n-1] == "u" {
+		w.ops, w.abandon = w.ops[:n-1], true
+	}
 	w.sched = hx.ParseInts(f[6])
+	if len(f) > 8 && f[8] == "r" {
+		w.reuse = true
+	}
 	return w
 }
 
@@ -393,7 +411,7 @@ func morassRunWorkOnce(w mWork, watchdog time.Duration) string {
 				}
 				if strings.HasPrefix(tok, "err:") {
 					skipping = true
-					if w.conc && !morassReuseAfterError {
+					if w.conc && !w.reuse && !morassReuseAfterError {
 						// writers of the failed cycle may still be running and Clear does
 						// not wait for them: the caller gives up altogether
 						stop = true
@@ -404,6 +422,12 @@ func morassRunWorkOnce(w mWork, watchdog time.Duration) string {
 			if stop {
 				break
 			}
+		}
+		if w.abandon {
+			// the caller abandons the sort (or reacts to the error that made it give up): CleanUp,
+			// whatever the chunk writers are doing
+			c.park(c.caller.gid, "op")
+			m.CleanUp()
 		}
 	}()
 	<-started
@@ -418,15 +442,26 @@ func morassRunWorkOnce(w mWork, watchdog time.Duration) string {
 	case <-time.After(3 * time.Second):
 		status = "deadlock"
 	}
-	// give background writers a moment to finish
-	c.waitFor(50*time.Millisecond, func() bool {
+	// give background writers a moment to finish (an abandoned sorter is listed when every
+	// writer has ended: they are never blocked for good, so this only waits for slow ones)
+	settle := 50 * time.Millisecond
+	if w.abandon {
+		settle = 2 * time.Second
+	}
+	writersDone := func() bool {
 		for _, g := range c.gs {
 			if g != c.caller && g.state != gDone {
 				return false
 			}
 		}
 		return true
-	})
+	}
+	c.waitFor(settle, writersDone)
+	if w.abandon {
+		// a writer spawned by the caller's last Push may not have reached its first hook yet
+		time.Sleep(5 * time.Millisecond)
+		c.waitFor(settle, writersDone)
+	}
 	disk, dirExists := -1, "0"
 	if ents, err := os.ReadDir(dir); err == nil {
 		disk, dirExists = len(ents), "1"
